@@ -486,7 +486,13 @@ mod imp {
             DestState::Existing => std::fs::write(dir.join(DEST), PRIOR).unwrap(),
             DestState::ExistingWithStaleTemp => {
                 std::fs::write(dir.join(DEST), PRIOR).unwrap();
-                std::fs::write(dir.join(TEMP), STALE).unwrap();
+                // every other stale temp is far LONGER than anything pulled here (a crashed pull of a bigger resource)
+                static NTH: std::sync::atomic::AtomicU64 = std::sync::atomic::AtomicU64::new(0);
+                if NTH.fetch_add(1, std::sync::atomic::Ordering::Relaxed) % 2 == 0 {
+                    std::fs::write(dir.join(TEMP), STALE).unwrap();
+                } else {
+                    std::fs::write(dir.join(TEMP), STALE.repeat(3000)).unwrap();
+                }
             }
         }
         let snap = svs::snapshot(&dir);
